@@ -325,6 +325,10 @@ class cisco_type7(uh.GenericHandler):
         hash = to_unicode(hash, "ascii", "hash")
         if len(hash) < 2:
             raise uh.exc.InvalidHashError(cls)
+        if not hash.isascii():
+            # NOTE: str.upper() maps some non-ascii characters onto ascii ones ("\ufb00" -> "FF"),
+            #       and int() reads non-ascii digits
+            raise uh.exc.MalformedHashError(cls)
         salt = int(hash[:2])  # may throw ValueError
         return cls(salt=salt, checksum=hash[2:].upper())
 
